@@ -14,7 +14,7 @@ use std::net::{IpAddr, Ipv4Addr, Ipv6Addr, SocketAddr};
 use std::sync::{Arc, Mutex};
 use vh::*;
 
-const HEADER: &str = "From SV Require Import Lib.Base Model.Diversity.\nLocal Open Scope N_scope.";
+const HEADER: &str = "From SV Require Import Lib.Base Gen.DiversityConsts Model.Diversity.\nLocal Open Scope N_scope.";
 
 // ------------------------------------------------------------------ inputs
 #[derive(Clone, Copy, Debug, PartialEq, Eq, Hash)]
@@ -226,7 +226,7 @@ fn enf_case(rng: &mut Rng, sum: &mut Summary, thorough: bool) -> EnfCase {
         let lvl = rng.below(3);
         let at = pick_attrs(rng, rich);
         if rng.chance(1, 3) { let s = pick_size(rng, &cfg); push(&mut real, Op::SetSize(s), &mut admitted, sum); }
-        let max_adds = if thorough { 1100 } else { 130 };
+        let max_adds = if thorough { 1100 } else { 115 };
         let mut refusals = 0; let mut i = 0u64;
         let base4 = (*rng.pick(FIRST_OCTETS) << 24) | ((rng.below(256) as u32) << 16);
         let base6 = (0x2001_0db8u128 << 96) | ((rng.below(60000) as u128) << 80) | ((rng.below(60000) as u128) << 64);
@@ -299,6 +299,19 @@ fn coq_eop(o: &EOp) -> String {
     }
 }
 /// the address text exactly as the library renders it
+/// the hypotheses of C13_address_forms, sampled on one address: std round trips and no space in std's text
+fn address_text_hypotheses(ip: Ip, port: u16) -> Option<String> {
+    let sock = SocketAddr::new(ip.std(), port);
+    let (st, it) = (sock.to_string(), ip.std().to_string());
+    if st.parse::<SocketAddr>().ok() != Some(sock) { return Some(format!("SocketAddr text {st} does not parse back")); }
+    if it.parse::<SocketAddr>().is_ok() { return Some(format!("IpAddr text {it} parses as a SocketAddr")); }
+    if it.parse::<IpAddr>().ok() != Some(ip.std()) { return Some(format!("IpAddr text {it} does not parse back")); }
+    if st.contains(' ') || it.contains(' ') { return Some(format!("std address text contains a space: {st} / {it}")); }
+    let na = NetworkAddress::from_ip_port(ip.std(), port);
+    let expect = match na.four_words() { Some(w) => format!("{} ({})", st, w), None => st.clone() };
+    if na.to_string() != expect { return Some(format!("NetworkAddress text {} is not socket text plus \" (words)\"", na)); }
+    None
+}
 fn render(rng: &mut Rng, ip: Ip, sel: u64) -> (Form, String) {
     let port = rng.range(1, 65535) as u16;
     match sel {
@@ -373,6 +386,10 @@ async fn eng_case(rng: &mut Rng, sum: &mut Summary, thorough: bool) -> EngCase {
             };
             let sel = match scenario { 6 => i % 4, _ => match rng.below(10) { 0 => 0, 1..=2 => 1, 3 => 2, _ => 3 } };
             let (form, text) = render(rng, ip, sel);
+            if let Form::Sock(ip, p) | Form::Display(ip, p, _) = &form {
+                if let Some(why) = address_text_hypotheses(*ip, *p) { sum.violation(0, "a hypothesis of C13_address_forms fails on the real std/NetworkAddress text", &[], json!({"why": why})); }
+                sum.count("address-text-hypotheses-sampled");
+            }
             serial += 1;
             let b = match scenario { 5 => fill_bucket, 4 => (i / 7) as usize, _ => rng.below(12) as usize };
             let id = id_in_bucket(rng, &me, b, serial);
@@ -440,9 +457,9 @@ fn main() {
     let mut rng = Rng::new(args.seed);
     let mut sum = Summary::default();
     sum.rule = "three case families. enforcer: histories of add/remove/probe/set_network_size on the real IPDiversityEnforcer under default, testnet, permissive and random small-cap configurations (caps 0..9), addresses drawn from small prefix trees (IPv4 /16-/24-host, IPv6 /32-/48-/64-host) with ASN/country/hosting/VPN attributes, plus directed runs that fill one prefix until two refusals, give slots back and retry, and network sizes at k/fraction-1, k/fraction, k/fraction+1. engine: DhtCoreEngine::add_node/evict_node/handle_node_failure (Strict with cached validator verdicts, and LogOnly) with every address text the library renders (ip, ip:port, NetworkAddress::to_string() with and without four-word suffix, garbage), directed fills of an IP, /24, /16, /64, /48, /32, a region (50/51) and a bucket (8/9). bootstrap: BootstrapManager::add_peer walks. After EVERY operation the verdict and the full counter statistics are compared. Non-trivial = contains at least one admission and one refusal; distinct = different (configuration, operations, verdicts).".into();
-    let mut w = CaseWriter::new(&args.out, "cases_c13", HEADER, "tcase", "check_case", "prop_case", 40);
+    let mut w = CaseWriter::new(&args.out, "cases_c13", HEADER, "tcase", "check_case", "prop_case", 20);
     let thorough = args.thorough();
-    let (n_enf, n_eng, n_boot) = if thorough { (5000, 1500, 300) } else { (420, 150, 40) };
+    let (n_enf, n_eng, n_boot) = if thorough { (5000, 1500, 300) } else { (330, 130, 30) };
     let mut id = 0u64;
     let mut seen = std::collections::HashSet::new();
     let prev_hook = std::panic::take_hook();
